@@ -20,6 +20,15 @@ static NEXT: AtomicU32 = AtomicU32::new(0);
 
 /// Lease a port nobody else (no other harness process, no other socket) is using:
 /// flock on a per-port lock file + probe binds without SO_REUSEPORT.
+/// How long a harness waits for a reply that must come. A reply that is due arrives in
+/// milliseconds; the bound only matters when the machine is starved (then a short wait would turn
+/// load into an undecided run) or when the reply is really missing (then the wait is the price of
+/// reporting it). VCHECK_REPLY_WAIT_S overrides.
+pub fn reply_wait() -> std::time::Duration {
+    static W: std::sync::OnceLock<u64> = std::sync::OnceLock::new();
+    std::time::Duration::from_secs(*W.get_or_init(|| std::env::var("VCHECK_REPLY_WAIT_S").ok().and_then(|s| s.parse().ok()).unwrap_or(20)))
+}
+
 pub fn lease_port() -> Result<PortLease, String> {
     let dir = verif_dir().join(".locks");
     let _ = std::fs::create_dir_all(&dir);
